@@ -321,6 +321,13 @@ impl SeqSpec {
             s / 64 != (s + bits - 1) / 64
         })
     }
+    /// model content of `Built::parent()`
+    pub fn parent_codes(&self, m: &Model) -> Vec<u8> {
+        match &self.repr {
+            Repr::Slice { pre, post } => cat(&[&sane(m, pre), &sane(m, &self.codes), &sane(m, post)]),
+            _ => sane(m, &self.codes),
+        }
+    }
     pub fn crosses_word(&self, bits: usize) -> bool {
         let off = (self.repr.pre_len() * bits) % 64;
         off + self.codes.len() * bits > 64
@@ -356,6 +363,14 @@ impl<C: Cm> Built<C> {
     }
     pub fn is_static(&self) -> bool {
         matches!(self, Built::Static(_))
+    }
+    /// the whole underlying sequence a window was borrowed from (or the value itself)
+    pub fn parent(&self) -> &SeqSlice<C> {
+        match self {
+            Built::Owned(s) => s,
+            Built::Window { parent, .. } => parent,
+            Built::Static(s) => s,
+        }
     }
 }
 
